@@ -128,6 +128,72 @@ theorem bulk_items_received (vars : List VarBind) (it it' : GetIter) (xs : List 
   subst h1
   exact h6
 
+/-- the conversion loop of a GetBulk reply appends, in the order received, a selection of the reply's
+varbinds -/
+theorem getBulkLoop_order : ∀ (vars : List VarBind) (it : GetIter) (acc xs : List (Option Py.Item)) (it' : GetIter),
+    getBulkLoop vars it acc = (.ok xs, it') →
+    ∃ new, xs = acc ++ new ∧ ((drain new).1.map (·.1)).Sublist (vars.map (·.oid))
+  | [], it, acc, xs, it', h => by
+    simp only [getBulkLoop, Prod.mk.injEq, Except.ok.injEq] at h
+    exact ⟨[], by simp [h.1], by simp [drain]⟩
+  | var :: more, it, acc, xs, it', h => by
+    unfold getBulkLoop at h
+    split at h
+    · obtain ⟨new, h1, h2⟩ := getBulkLoop_order more it acc xs it' h
+      exact ⟨new, h1, by simp only [List.map_cons]; exact List.Sublist.cons _ h2⟩
+    · cases hs : it.setNextOid var.oid with
+      | mk it1 ok =>
+        rw [hs] at h
+        simp only at h
+        cases ok with
+        | false =>
+          simp only [Bool.not_false, if_true, Prod.mk.injEq, Except.ok.injEq] at h
+          exact ⟨[none], h.1.symm, by simp [drain]⟩
+        | true =>
+          simp only [Bool.not_true, Bool.false_eq_true, if_false] at h
+          split at h
+          · rename_i k hk
+            split at h
+            · rename_i v hv
+              obtain ⟨new, h1, h2⟩ := getBulkLoop_order more it1 _ xs it' h
+              refine ⟨some (var.oid, k, v) :: new, by rw [h1]; simp, ?_⟩
+              rw [drain_some]
+              simp only [List.map_cons]
+              exact List.Sublist.cons₂ _ h2
+            · cases h
+            · cases h
+          · cases h
+          · cases h
+
+/-- **C06.bulk_order**: the rows a GetBulk step yields are rows of that reply, in the order the agent
+sent them (none invented, none reordered, none repeated) -/
+theorem bulk_order (vars : List VarBind) (it it' : GetIter) (xs : List (Option Py.Item))
+    (h : getBulkLoop vars it [] = (.ok xs, it')) :
+    ((drain xs).1.map (·.1)).Sublist (vars.map (·.oid)) := by
+  obtain ⟨new, h1, h2⟩ := getBulkLoop_order vars it [] xs it' h
+  simp only [List.nil_append] at h1
+  subst h1; exact h2
+
+/-- **C06.bulk_stop_first**: the first data row that falls outside the subtree or does not increase ends
+the batch with the stop marker right there: whatever the agent put after it is not looked at -/
+theorem bulk_stop_first (v : VarBind) (post : List VarBind) (it : GetIter) (acc : List (Option Py.Item))
+    (hd : v.value.isData = true) (hr : (it.setNextOid v.oid).2 = false) :
+    getBulkLoop (v :: post) it acc = (.ok (acc ++ [none]), (it.setNextOid v.oid).1) := by
+  unfold getBulkLoop
+  simp only [hd, Bool.not_true, Bool.false_eq_true, if_false]
+  cases hs : it.setNextOid v.oid with
+  | mk it1 ok =>
+    rw [hs] at hr
+    simp only at hr
+    subst hr
+    simp
+
+/-- rows without data (NULL and the exception values) inside a batch are passed over without a yield -/
+theorem bulk_skips_nodata (v : VarBind) (post : List VarBind) (it : GetIter) (acc : List (Option Py.Item))
+    (hd : v.value.isData = false) : getBulkLoop (v :: post) it acc = getBulkLoop post it acc := by
+  rw [getBulkLoop]
+  simp [hd]
+
 /-- a Report or a request PDU never yields anything -/
 theorem report_yields_nothing (it : GetIter) (body : Bytes) (ps : List Pdu) :
     (walkNext it (.report body :: ps)).yields = [] ∧ (walkBulk it (.report body :: ps)).yields = [] := by
